@@ -65,5 +65,10 @@ int  simf_helper_system(const char *cmd);
 // 'obj' - or, with op = -1, just before the k-th system() command of the tool.  The tool is stopped meanwhile, so the
 // interleaving of the two processes is decided by the simulator at system-call granularity.
 int  simf_add_party(int obj, int op, long k, const char *cmd);
+// I/O scheduling points: 'fn' is called just before every open and close of a simulated object (typically everything
+// under one directory prefix).  With the SIM-T scheduler behind it, what two threads do to the same files between two
+// synchronisation operations (write a file, read it back) can interleave.  Safe places to park a thread: no libc-wide
+// lock is held around the open and close system calls.
+void simf_set_io_yield(void (*fn)(const char *what));
 enum { SIMF_CRASH_EXIT = 111 };
 #endif
